@@ -392,9 +392,13 @@ impl<S: AsyncRead + AsyncWrite + Unpin> NoiseSocket<S> {
     fn reset_read_state(&mut self, remaining: usize) {
         match remaining {
             0 => {
+                #[cfg(feature = "verif")]
+                crate::verif::hit("noise.read.carry0");
                 self.nread = 0;
             }
             1 => {
+                #[cfg(feature = "verif")]
+                crate::verif::hit("noise.read.carry1");
                 self.read_buffer[0] = self.read_buffer[self.nread - 1];
                 self.nread = 1;
             }
@@ -499,6 +503,8 @@ impl<S: AsyncRead + AsyncWrite + Unpin> AsyncRead for NoiseSocket<S> {
                                 "read buffer can fit the full frame",
                             );
 
+                            #[cfg(feature = "verif")]
+                            crate::verif::hit("noise.read.partial_frame_fits");
                             this.current_frame_size = Some(frame_size);
                             this.read_state = ReadState::ReadData {
                                 max_read: this.canonical_max_read,
@@ -515,6 +521,8 @@ impl<S: AsyncRead + AsyncWrite + Unpin> AsyncRead for NoiseSocket<S> {
 
                         // use the auxiliary memory at the end of the read buffer for reading the
                         // frame
+                        #[cfg(feature = "verif")]
+                        crate::verif::hit("noise.read.auxiliary");
                         this.current_frame_size = Some(frame_size);
                         this.read_state = ReadState::ReadData {
                             max_read: this.nread + frame_size - remaining,
@@ -559,6 +567,8 @@ impl<S: AsyncRead + AsyncWrite + Unpin> AsyncRead for NoiseSocket<S> {
                             return Poll::Ready(Ok(copy_size));
                         }
                         false => {
+                            #[cfg(feature = "verif")]
+                            crate::verif::hit("noise.read.pending_partial");
                             buf.copy_from_slice(&pending[offset..buf.len() + offset]);
 
                             this.read_state = ReadState::ProcessNextFrame {
@@ -599,6 +609,8 @@ impl<S: AsyncRead + AsyncWrite + Unpin> AsyncRead for NoiseSocket<S> {
                                 }
                             },
                             false => {
+                                #[cfg(feature = "verif")]
+                                crate::verif::hit("noise.read.small_buffer");
                                 let mut buffer =
                                     this.decrypt_buffer.take().expect("buffer to exist");
 
@@ -671,6 +683,8 @@ impl<S: AsyncRead + AsyncWrite + Unpin> AsyncWrite for NoiseSocket<S> {
                     Poll::Ready(Err(e)) => return Poll::Ready(Err(e)),
                     Poll::Pending => {
                         // Socket is busy, move on to encryption.
+                        #[cfg(feature = "verif")]
+                        crate::verif::hit("noise.write.drain_pending");
                         break;
                     }
                 }
@@ -724,6 +738,8 @@ impl<S: AsyncRead + AsyncWrite + Unpin> AsyncWrite for NoiseSocket<S> {
             // This condition will always be satisfied, since the encrypted buffer
             // is large enough (MAX_NOISE_MSG_LEN) to hold at least one chunk (MAX_FRAME_LEN) with
             // overhead.
+            #[cfg(feature = "verif")]
+            crate::verif::hit("noise.write.backpressure");
             return Poll::Pending;
         }
 
@@ -747,6 +763,8 @@ impl<S: AsyncRead + AsyncWrite + Unpin> AsyncWrite for NoiseSocket<S> {
                 ref mut encrypted_len,
                 ..
             } => {
+                #[cfg(feature = "verif")]
+                crate::verif::hit("noise.write.append_while_writing");
                 *encrypted_len = buffer_offset;
             }
         }
